@@ -181,6 +181,8 @@ def gen_history(rng, tree, nops):
                 continue
             v = copy.deepcopy(rng.choice(VALUES))
             ops.append({"op": "create", "base": base, "steps": [list(s) for s in steps], "xp": xp, "v": v})
+            if isinstance(v, (dict, list)) and rng.random() < 0.5:
+                ops[-1]["n0v"] = True  # the written value is an n0dict / n0list (converted recursively)
             ref_create(ref, base, steps, copy.deepcopy(v))
         elif r < 0.8:
             p = rng.choice(poss)
@@ -200,7 +202,7 @@ def check_history(c):
     ref = copy.deepcopy(c["tree"])
     for k, op in enumerate(c["ops"]):
         if op["op"] == "create":
-            v = copy.deepcopy(op["v"])
+            v = X.convert(op["v"], "n0") if op.get("n0v") else copy.deepcopy(op["v"])
             steps = [tuple(s) for s in op["steps"]]
             # C03-c: new() directly below a list that is itself an element of a *plain* list
             c03c = bool(steps and steps[0][0] == "Lnew" and op["base"] and isinstance(op["base"][-1], int)
